@@ -71,8 +71,12 @@ def units(tier):
     out.append(("checkerboard",))
     out.append(("triangular", (3, 3), "infinite", False))
     out.append(("triangular", (3, 3), "infinite", True))
-    for dims in ((2, 2), (3, 2), (3, 3)):
-        out.append(("triangular", dims, "obc", True))
+    # full_patch triangular lattices: every size up to 5x5 with each boundary (the (3, 3) infinite one is listed above)
+    for Nx in range(1, 6):
+        for Ny in range(1, 6):
+            for b in ("obc", "cylinder", "infinite"):
+                if not (b == "infinite" and (Nx, Ny) == (3, 3)):
+                    out.append(("triangular", (Nx, Ny), b, True))
     for a, b, n in ruc_families(tier):
         total = n ** (a * b)
         for lo in range(0, total, RUC_CHUNK):
@@ -84,7 +88,7 @@ def units(tier):
 
 
 def closed_form(tier):
-    exp = {"geom:SquareLattice": 75, "geom:CheckerboardLattice": 1, "geom:TriangularLattice": 5}
+    exp = {"geom:SquareLattice": 75, "geom:CheckerboardLattice": 1, "geom:TriangularLattice": 76}
     for a, b, n in ruc_families(tier):
         exp[f"patterns:{a}x{b}/{n}"] = n ** (a * b)
     for a, b, n, nb in sample_plan(tier):
@@ -105,9 +109,9 @@ def floors(tier):
             "site2index_checks": 50000, "period_shift_checks": 5000, "nn_site_checks": 500000, "nn_site_inverse_checks": 300000,
             "bonds_checked": 3000, "seam_bonds_checked": 50, "nn_bond_dirn_checks": 50000, "nn_bond_dirn_rejections": 30000,
             "f_ordered_pair_checks": 50000, "f_ordered_triple_checks": 50000, "sites_listing_checked": 80,
-            "container_ops": 10000, "container_patch_ops": 1500, "container_init_forms": 500, "container_init_rejected": 50,
+            "container_ops": 10000, "container_patch_ops": 1500, "container_patch_remove_of_patched_site": 150, "container_init_forms": 500, "container_init_rejected": 50,
             "dict_form_checked": 200, "units_done": len(units(tier)),
-            "class:SquareLattice": 75, "class:CheckerboardLattice": 1, "class:TriangularLattice": 5, "class:RectangularUnitcell": 150}
+            "class:SquareLattice": 75, "class:CheckerboardLattice": 1, "class:TriangularLattice": 76, "class:RectangularUnitcell": 150}
 
 
 # ------------------------------------------------------------------ oracle: brute-force model of the lattice
@@ -393,7 +397,12 @@ def check_bonds(ctx, g, M):
                 V(ctx, M, f"bonds:missing-site:{cls}:diagonal:{M.kind}", f"diagonal bond {b!r} has no site on one end")
                 continue
             s0, s1 = tuple(b[0]), tuple(b[1])
-            if not (M.exists(s0) and M.exists(s1) and (s1[0] - s0[0], s1[1] - s0[1]) == (-1, 1)):
+            if M.kind == "cylinder":
+                # periodic rows: the bond joins (x+1, y), named inside the cell as nn_site does, and (x, y+1)
+                is_diag = s1[1] - s0[1] == 1 and 0 <= s1[0] < M.Nx and s0 == M.canon((s1[0] + 1, s0[1]))
+            else:
+                is_diag = (s1[0] - s0[0], s1[1] - s0[1]) == (-1, 1)
+            if not (M.exists(s0) and M.exists(s1) and is_diag):
                 V(ctx, M, f"bonds:not-nn-in-lattice-order:{bkey}", f"diagonal bond {b}: sites are not (x+1, y) and (x, y+1)")
             if not g.f_ordered(b[0], b[1]):
                 V(ctx, M, f"bonds:f-order:{bkey}", f"diagonal bond {b} is not fermionically ordered")
@@ -401,6 +410,8 @@ def check_bonds(ctx, g, M):
             seen[k] = seen.get(k, 0) + 1
         if M.kind == "obc":
             want = {((x + 1, y), (x, y + 1)): 1 for x in range(M.Nx - 1) for y in range(M.Ny - 1)}
+        elif M.kind == "cylinder":
+            want = {(M.label((x + 1, y)), M.label((x, y + 1))): 1 for x in range(M.Nx) for y in range(M.Ny - 1)}
         else:
             want = {(M.label((x + 1, y)), M.label((x, y + 1))): 1 for x, y in M.window()}
         if seen != want and not any(b[0] is None or b[1] is None for b in lists['d']):
@@ -508,6 +519,11 @@ def check_container(ctx, g, M, rng):
                     used.add(M.label(s))
                 if len(cand) == k:
                     break
+            # a site that is already in the patch may be moved again: the patch then holds a shallow copy of what the
+            # container returned for it just before (a tensor set through the patch is not dropped)
+            if patch and rng.random() < 0.4:
+                cand.append(rng.choice(sorted(patch)))
+                ctx.count("container_patch_remove_of_patched_site")
             if not cand:
                 continue
             before = {s: expect(s) for s in cand}
@@ -596,7 +612,7 @@ def unit_checkerboard(ctx, rng):
 
 def unit_triangular(ctx, dims, boundary, full_patch, rng):
     import yastn.tn.fpeps as fpeps
-    if boundary == "infinite":
+    if boundary == "infinite" and tuple(dims) == (3, 3):
         g = fpeps.TriangularLattice(full_patch=full_patch) if full_patch else fpeps.TriangularLattice()
     else:
         g = fpeps.TriangularLattice(dims=dims, boundary=boundary, full_patch=full_patch)
